@@ -22,7 +22,7 @@ ASSUMPTIONS = ["reference model passed RFC 9807 App. C (6 real + 3 fake), RFC 94
 
 def jobs(tier, seed):
     out = []
-    n = 8 if tier == "quick" else 120
+    n = 8 if tier == "quick" else 320
     for su in okv.SUITES20:
         shards = 1 if tier == "quick" else 4
         for sh in range(shards):
